@@ -231,7 +231,8 @@ fn check_roundtrip(name: &str, so: SerOut, ty: &Ty, val: &Val, m: &Option<Tree>,
     }
     // the documented mapping speaks about table-rooted documents; for other roots only the
     // property's own words (valid text that reads back equal) are asserted
-    if let (Some(m), Some(t), true) = (m, &tree, ok_root(ty)) {
+    // (an f32 may legitimately be printed through any f64 that narrows back to it: not compared)
+    if let (Some(m), Some(t), true, false) = (m, &tree, ok_root_val(ty, val), ty_features(ty).contains(&"f32")) {
         out.stats.inc("oracle.tree_vs_model");
         if !t.eq_unordered(m) {
             out.violate(
@@ -301,7 +302,7 @@ fn probes(ty: &Ty, val: &Val, st: &mut Stats) {
                 if kvs.is_empty() {
                     st.inc("probe.empty_map");
                 }
-                if !matches!(kt, KeyTy::Str | KeyTy::NewtypeStr(_) | KeyTy::UnitVariant(..) | KeyTy::SpannedStr) {
+                if !matches!(kt, KeyTy::Str | KeyTy::NewtypeStr(_) | KeyTy::UnitVariant(..) | KeyTy::SpannedStr | KeyTy::NewtypeSpanned(_)) {
                     st.inc("probe.non_string_key");
                 }
                 if matches!(kt, KeyTy::UnitVariant(..)) {
